@@ -58,12 +58,18 @@ Three ==
         mid(i) == {i, <<"bin", "or", i, V("X")>>, <<"bin", "and", i, <<"bin", "or", V("X"), V("a")>> >>}
     IN {<<"fix", "Y", k1, <<"fix", "X", k2, m>> >> : k1 \in Kinds, k2 \in Kinds, m \in UNION {mid(i) : i \in inner}}
 
-Family == IF Binders = 2 THEN Two ELSE Three
+\* Binders = 1: quantifiers over every one-step wrapper of a variable -- the quantified name in every operand position
+\* of every node kind (both sides of a connective, each branch of if-then-else, inside counting lists on either side
+\* of a comparison, under another binder of the same or another name, under a fixed point), every list shape of VLists
+Quantified ==
+    {<<"q", q, vs, w>> : q \in Qs, vs \in VLists, w \in UNION {Wrap(r) : r \in VarAtoms}}
+
+Family == CASE Binders = 1 -> Quantified [] Binders = 2 -> Two [] OTHER -> Three
 
 Thm(g) ==
     LET m == SemC(g, <<>>) IN
-    /\ m.ok
-    /\ Ev(g) = Canon(ToIdxSet(m.s))
+    /\ Binders > 1 => m.ok                 \* the nested families are monotone by construction
+    /\ m.ok => Ev(g) = Canon(ToIdxSet(m.s))
     /\ Parse(Sentence(g, TRUE)) = [ok |-> TRUE, t |-> g]
 
 Case(g) ==
